@@ -14,7 +14,7 @@
 #include <xenium/vyukov_bounded_queue.hpp>
 
 using namespace xsim;
-namespace {
+namespace hx_own {
 enum { OP_PUSH = 1, OP_POP = 2, OP_NOTE_INSIDE = 40 };
 bool g_harness_deleting = false;
 
